@@ -114,10 +114,24 @@ def run_pack(pid: str, tier: str, check: Callable[[Ctx], None], *, proj: Optiona
     """Run one rule pack; returns a result dict (no I/O besides reading the repo)."""
     t0 = time.time()
     res: Dict[str, Any] = {'pid': pid, 'tier': tier, 'error': None, 'floor_error': None}
+    ctx = None
     try:
         proj = proj or Project()
         ctx = Ctx(proj, pid, tier)
-        check(ctx)
+        try:
+            check(ctx)
+        except AnalysisError as e:
+            # A rule could not bind ("unrecognised shape").  What the rules that ran before it positively found wrong stays wrong: if there is a
+            # failing obligation that is not a listed finding, the run reports it (and notes that the analysis stopped early); only when nothing
+            # was found is the outcome "analysis broken".  Instance floors are not judged on a run that did not finish.
+            open_keys = {k['key'] for k in load_known() if k.get('property') == pid and k.get('status') == 'open'}
+            if not any(o.status == 'fail' and o.key not in open_keys for o in ctx.obligations):
+                raise
+            res['partial_error'] = str(e)
+            ctx.notes.append(f'analysis stopped early, after the violation(s) reported here had been established: {e}')
+            res['ctx'] = ctx
+            res['wall_s'] = time.time() - t0
+            return res
         if proj.renamed:
             done = [f'{rel}:{q} ' + ','.join(f'{o}->{n}' for o, n in m.items() if o != '#params') for rel, per in sorted(proj.renamed.items()) for q, m in sorted(per.items())]
             ctx.notes.append('local names alpha-converted to the reference vocabulary before analysis (sa/canon.py): ' + '; '.join(done)[:1500])
